@@ -162,8 +162,33 @@ pub fn run_prop(ctx: &Ctx, sink: &mut Sink) {
         sink.push(Case { req: format!("glob-rx {}", hex(p.as_bytes())), imp: imp_rx(p), tags: vec!["rx", "shape", "nt"] });
         sink.push(Case { req: format!("glob-match 0 {} {}", hex(p.as_bytes()), hex(s.as_bytes())), imp: imp_match(false, p, s), tags: vec!["match", "shape", "nt"] });
     }
-    // ---- end to end: -name / -iname / -path / -lname over real entries
     let errf = ctx.tmp.join("stderr12");
+    // ---- end to end: names that are not valid UTF-8 (the subject is the name decoded lossily; the
+    // patterns are chosen so that the byte-wise fnmatch answer is the same)
+    {
+        use std::os::unix::ffi::OsStrExt;
+        let dir = ctx.scratch("globb");
+        let d = dir.join("d");
+        std::fs::create_dir(&d).unwrap();
+        let names: Vec<&[u8]> = vec![b"caf\xe9.txt", b"\xff\xfe.txt", b"plain.txt", b"other.dat", b"\xe9"];
+        for n in &names { std::fs::write(d.join(std::ffi::OsStr::from_bytes(n)), b"").unwrap(); }
+        for (prim, kind, ic, pat) in [("-name", "n", false, "*.txt"), ("-name", "n", false, "caf?.txt"), ("-name", "n", false, "?*"), ("-iname", "n", true, "*.TXT"),
+                                      ("-name", "n", false, "*"), ("-name", "n", false, "?"), ("-name", "n", false, "[!a-z]*"), ("-path", "p", false, "d/*.txt"), ("-path", "p", false, "d/???.txt")] {
+            let args: Vec<String> = vec!["d".into(), "-mindepth".into(), "1".into(), prim.into(), pat.into(), "-print0".into()];
+            let o = find_inproc(&errf, &args, std::time::SystemTime::now(), Some(&dir));
+            let printed: Vec<Vec<u8>> = o.out.split(|b| *b == 0).filter(|x| !x.is_empty()).map(|x| x.to_vec()).collect();
+            // -print0 writes the path decoded lossily, too
+            let bits: String = names.iter().map(|n| {
+                let path = format!("d/{}", String::from_utf8_lossy(n));
+                if printed.iter().any(|p| p == path.as_bytes()) { '1' } else { '0' }
+            }).collect();
+            let imp = match o.code { Some(0) => bits, Some(c) => format!("status-{c}"), None => "panic".into() };
+            let sw: Vec<String> = names.iter().map(|n| { let t = String::from_utf8_lossy(n).to_string(); hex(if kind == "p" { format!("d/{t}") } else { t }.as_bytes()) }).collect();
+            sink.push(Case { req: format!("glob-e2e {kind} {} {} {}", ic as u8, hex(pat.as_bytes()), sw.join(",")), imp, tags: vec!["e2e", "non-utf8-name", "nt"] });
+        }
+        let _ = std::fs::remove_dir_all(&dir);
+    }
+    // ---- end to end: -name / -iname / -path / -lname over real entries
     let rounds = if ctx.thorough { 400 } else { 40 };
     for r in 0..rounds {
         let dir = ctx.scratch("glob");
